@@ -2,4 +2,5 @@
 From Verif Require Import Lookup LookupEnv Gen_Lookup LookupInst.
 Require Extraction ExtrOcamlBasic.
 Extraction Language OCaml.
-Extraction "model.ml" p_lookup_seq p_spec_seq p_get_source p_test p_test_spec p_tests p_env_run basename g_classes.
+Extraction "model.ml" p_lookup_seq p_spec_seq p_get_source p_rendered_seq p_spec_rendered p_flatb p_shadow_freeb
+  p_test p_test_spec p_tests p_env_run basename g_classes.
